@@ -11,6 +11,9 @@ PAR = {
     "grch38": {"PAR1X": [10000, 2781479], "PAR2X": [155701382, 156030895], "PAR1Y": [10000, 2781479], "PAR2Y": [56887902, 57217415]},
 }
 DEFAULT_THR = (-1.1, -0.25, 0.2, 0.7)
+# keys of a case that only steer run_impl (how the table is built / which door is used); never sent to the model
+HARNESS_KEYS = {"cli", "cli_opts", "extra", "colorder", "sub", "dupidx", "callstyle", "repeat", "entry", "purity_kind",
+                "keep_n"}
 
 
 def prose_copies(cls, ploidy, hapx, female):
@@ -87,24 +90,148 @@ def _rows_out(d, purity):
     return res
 
 
-def run_impl(case):
+def build_cna(i):
+    """the CopyNumArray of a case.  Optional keys (all absent = the plain table with a RangeIndex):
+    `extra` (names of additional columns, incl. a stale `cn`), `colorder` (seed: columns shuffled),
+    `sub` (seed: the table is a boolean-mask SUBSET of a larger one, so index labels != positions),
+    `dupidx` (index labels repeat, as after pd.concat without ignore_index)"""
+    import random
     import numpy as np
+    import pandas as pd
     from cnvlib.cnary import CopyNumArray as CNA
-    from cnvlib import call
 
-    i = case["in"]
     rows = i["rows"]
     cols = ["chromosome", "start", "end", "gene", "log2"]
     data = []
     for r, lg in zip(rows, i["log2_f"]):
-        row = [r[0], r[1], r[2], "G", float("nan") if lg is None else lg]
-        data.append(row)
+        data.append([r[0], r[1], r[2], "G", float("nan") if lg is None else lg])
     if i["has_baf"]:
         cols = cols + ["baf"]
         for row, r in zip(data, rows):
             row.append(float("nan") if r[5] is None else float(Fraction(r[5])))
-    cna = CNA.from_rows([tuple(x) for x in data], columns=cols, meta_dict={"sample_id": "S"})
-    purity = None if i["purity"] is None else i["purity_f"]
+    extra = list(i.get("extra") or [])
+    for name in extra:
+        cols = cols + [name]
+        for k, row in enumerate(data):
+            lg = row[4]
+            row.append({"depth": 1.0 + 0.5 * k, "probes": k + 1, "weight": 0.25 + (k % 7) / 10.0, "cn": 7 + k % 3,
+                        "ci_lo": lg - 0.125, "ci_hi": lg + 0.125, "p_ttest": 0.5}.get(name, 0.0))
+    meta = {"sample_id": "S"}
+    if not (extra or i.get("colorder") is not None or i.get("sub") is not None or i.get("dupidx")):
+        return CNA.from_rows([tuple(x) for x in data], columns=cols, meta_dict=meta)
+    mask = [True] * len(data)
+    if i.get("sub") is not None and data:
+        rng = random.Random(i["sub"])
+        big, mask = [], []
+        for row in data:
+            for _ in range(rng.choice([0, 1, 1, 2, 3])):
+                j = list(rng.choice(data))
+                j[3], j[4] = "junk", 5.0 + rng.random()
+                big.append(j)
+                mask.append(False)
+            big.append(row)
+            mask.append(True)
+        if all(mask):
+            j = list(data[-1])
+            j[3], j[4] = "junk", 5.5
+            big.insert(0, j)
+            mask.insert(0, False)
+        data = big
+    df = pd.DataFrame.from_records([tuple(x) for x in data], columns=cols)
+    if i.get("colorder") is not None:
+        perm = list(cols)
+        random.Random(i["colorder"]).shuffle(perm)
+        df = df[perm]
+    cna = CNA(df, meta)
+    if not all(mask):
+        cna = cna[np.array(mask)]
+    if i.get("dupidx") and len(cna) > 1:
+        d = cna.data.copy()
+        d.index = pd.Index([k % max(1, len(d) // 2) for k in range(len(d))])
+        cna = CNA(d, meta)
+    return cna
+
+
+def _purity_arg(i):
+    import numpy as np
+    if i["purity"] is None:
+        return None
+    p = i["purity_f"]
+    kind = i.get("purity_kind")
+    if kind == "int" and p == 1.0:
+        return 1
+    if kind == "np":
+        return np.float64(p)
+    return p
+
+
+def _do_call(call, cna, va, i, purity):
+    """positional call with every argument given (default), or by keyword with the defaults left implicit"""
+    par = i.get("par_f", i["par"])
+    if i.get("callstyle", "positional") == "positional":
+        return call.do_call(cna, va, i["method"], i["ploidy"], purity, i["hapX"], i["female"], par,
+                            None, tuple(i["thr_f"]))
+    kw = {}
+    if va is not None:
+        kw["variants"] = va
+    if i["method"] != "threshold":
+        kw["method"] = i["method"]
+    if i["ploidy"] != 2:
+        kw["ploidy"] = i["ploidy"]
+    if purity is not None:
+        kw["purity"] = purity
+    if i["hapX"]:
+        kw["is_haploid_x_reference"] = True
+    if i["female"]:
+        kw["is_sample_female"] = True
+    if par is not None:
+        kw["diploid_parx_genome"] = par
+    if tuple(i["thr_f"]) != DEFAULT_THR:
+        kw["thresholds"] = tuple(i["thr_f"])
+    return call.do_call(cna, **kw)
+
+
+def _run_direct(call, cna, i, purity):
+    """the entry points below do_call, called on the table itself: absolute_clonal / absolute_dataframe (any
+    purity, incl. None and 1.0 as export does) and absolute_pure, composed as do_call composes them"""
+    import numpy as np
+    entry, par = i["entry"], i.get("par_f", i["par"])
+    ploidy, hapx, female = i["ploidy"], i["hapX"], i["female"]
+    direct = {}
+    active = purity is not None and purity and purity < 1.0
+    if entry == "absolute_pure":
+        absolutes = call.absolute_pure(cna, ploidy, hapx)
+        cns = [int(c) for c in np.asarray(absolutes).round().astype("int")]
+        return {"direct": direct, "out": [[c, None, None, None] for c in cns]}
+    if entry == "absolute_dataframe":
+        df = call.absolute_dataframe(cna, ploidy, purity, hapx, par, female)
+        absolutes = df["absolute"]
+        direct["reference"] = [int(v) for v in df["reference"]]
+        direct["expect"] = [int(v) for v in df["expect"]]
+        direct["abs_reference"] = [int(v) for v in call.absolute_reference(cna, ploidy, par, hapx)]
+        direct["abs_expect"] = [int(v) for v in call.absolute_expect(cna, ploidy, par, female)]
+    else:
+        absolutes = call.absolute_clonal(cna, ploidy, purity, hapx, par, female)
+    direct["len_ok"] = len(absolutes) == len(cna)
+    cns = [int(c) for c in absolutes.round().astype("int")]
+    ratios = [None] * len(cns)
+    if active:
+        lg = call.log2_ratios(cna, absolutes, ploidy, hapx, par)
+        ratios = [frac(2.0 ** float(v)) for v in np.asarray(lg, dtype=float)]
+    return {"direct": direct, "out": [[c, r, None, None] for c, r in zip(cns, ratios)]}
+
+
+SEX_MALE = ("m", "y", "male", "Male")
+SEX_FEMALE = ("f", "x", "female", "Female")
+
+
+def run_impl(case):
+    import numpy as np
+    from cnvlib import call
+
+    i = case["in"]
+    cna = build_cna(i)
+    purity = _purity_arg(i)
     if i.get("cli"):
         # end to end through the command line: write a .cns, run `cnvkit.py call`, read the result back
         import os, shutil, tempfile
@@ -116,22 +243,37 @@ def run_impl(case):
         try:
             fin, fout = os.path.join(d, "S.cns"), os.path.join(d, "S.call.cns")
             tabio.write(cna, fin)
-            argv = ["call", fin, "-m", i["method"], "--ploidy", str(i["ploidy"]), "-o", fout,
-                    "-x", "female" if i["female"] else "male", "-t=" + ",".join(repr(t) for t in i["thr_f"])]
+            opt = i.get("cli_opts") or {}
+            argv = ["call", fin, "-m", i["method"], "-o", fout]
+            if not (opt.get("implicit") and i["ploidy"] == 2):
+                argv += ["--ploidy", str(i["ploidy"])]
+            if not (opt.get("implicit") and tuple(i["thr_f"]) == DEFAULT_THR):
+                argv.append("-t=" + ",".join(repr(t) for t in i["thr_f"]))
+            # sample sex: any accepted spelling, or left out (then inferred from the table, see `female_eff`)
+            sex = opt.get("sex", "female" if i["female"] else "male")
+            if sex is not None:
+                argv += [opt.get("sex_flag", "-x"), sex]
             if purity is not None:
-                argv += ["--purity", repr(purity)]
+                argv += ["--purity", repr(float(purity))]
             if i["hapX"]:
-                argv.append("-y")
+                argv.append(opt.get("hapx_flag", "-y"))
             if i["par"]:
-                argv += ["--diploid-parx-genome", i["par"]]
+                argv += ["--diploid-parx-genome", i.get("par_f", i["par"])]
             args = commands.parse_args(argv)
             args.func(args)
             rr = read_cna(fin).data
             reread = [[str(r.chromosome), int(r.start), int(r.end), float(r.log2),
                        (None if not i["has_baf"] or r.baf != r.baf else float(r.baf))] for r in rr.itertuples()]
-            return {"cli_rows": reread, "out": _rows_out(read_cna(fout).data, purity)}
+            res = {"cli_rows": reread, "out": _rows_out(read_cna(fout).data, purity)}
+            if sex is None:
+                # the sex the command line works with when none is stated: guess_xx of the table as read
+                g = read_cna(fin).guess_xx(i["hapX"], i["par"], verbose=False)
+                res["female_eff"] = bool(g) if g is not None else False
+            return res
         finally:
             shutil.rmtree(d, ignore_errors=True)
+    if i.get("entry") and i["entry"] != "do_call":
+        return _run_direct(call, cna, i, purity)
     if i.get("variants"):
         # b-allele frequencies supplied as a VariantArray: do_call takes the per-segment BAF from
         # variants.baf_by_ranges (C18's subject: its values enter the model as a parameter) and rescales it for purity
@@ -141,17 +283,18 @@ def run_impl(case):
                                     meta_dict={"sample_id": "S"})
         va.sort()
         bafs = [None if b != b else float(b) for b in np.asarray(va.baf_by_ranges(cna), dtype=float)]
-        out = call.do_call(cna, va, i["method"], i["ploidy"], purity, i["hapX"], i["female"], i["par"],
-                           None, tuple(i["thr_f"]))
+        out = _do_call(call, cna, va, i, purity)
         return {"var_baf": bafs, "out": _rows_out(out.data, purity)}
-    out = call.do_call(cna, None, i["method"], i["ploidy"], purity, i["hapX"], i["female"], i["par"],
-                       None, tuple(i["thr_f"]))
+    if i.get("repeat"):
+        # the same table object called twice: the second result must not depend on the first call
+        _do_call(call, cna, None, i, purity)
+    out = _do_call(call, cna, None, i, purity)
     return _rows_out(out.data, purity)
 
 
 def to_line(case, impl):
     i = case["in"]
-    line = {"op": "call", "in": {k: v for k, v in i.items() if not k.endswith("_f") and k != "cli"}}
+    line = {"op": "call", "in": {k: v for k, v in i.items() if not k.endswith("_f") and k not in HARNESS_KEYS}}
     if isinstance(impl, dict) and "__error__" in impl:
         return line
     if isinstance(impl, dict) and "cli_rows" in impl:
@@ -162,13 +305,19 @@ def to_line(case, impl):
             key_n[k] = n if k not in key_n else None
         line["in"]["rows"] = [[c, s, e, frac(lg), frac(2.0 ** lg), None if b is None else frac(b)]
                               for c, s, e, lg, b in impl["cli_rows"]]
-        # the expected n is dropped: it was derived from the unrounded log2 (the model is compared instead)
-        line["in"]["n"] = [None for _ in impl["cli_rows"]]
+        # the expected n was derived from the unrounded log2: dropped (the model is compared instead) unless the
+        # case vouches (`keep_n`) that 6 significant digits cannot move the copy number across a rounding boundary
+        line["in"]["n"] = [key_n.get((c, s, e)) if i.get("keep_n") else None for c, s, e, lg, b in impl["cli_rows"]]
+        if "female_eff" in impl:
+            line["in"]["female"] = impl["female_eff"]  # sex not stated on the command line: the inferred one
         line["impl"] = impl["out"]
         return line
     if isinstance(impl, dict) and "var_baf" in impl:
         line["in"]["rows"] = [r[:5] + [None if b is None else frac(b)] for r, b in zip(i["rows"], impl["var_baf"])]
         line["in"]["has_baf"] = True
+        line["impl"] = impl["out"]
+        return line
+    if isinstance(impl, dict) and "direct" in impl:
         line["impl"] = impl["out"]
         return line
     line["impl"] = impl
@@ -187,7 +336,7 @@ def judge_with(clauses_of_interest):
         if isinstance(impl, dict) and "cli_rows" in impl:
             impl = impl["out"]
             rtol = 5e-5  # the rewritten log2 went through a file: 6 significant digits
-        if isinstance(impl, dict) and "var_baf" in impl:
+        if isinstance(impl, dict) and ("var_baf" in impl or "direct" in impl):
             impl = impl["out"]
         slack = [Fraction(s) for s in resp["slack"]]
         disagree = []
